@@ -265,6 +265,12 @@ def run_shard(spec, ctx):
                     ctx.violation("C16/segment.pairwise/case-sensitive", "identity",
                                   "segment.pairwise", "changing label case changed the "
                                   "score: %r vs %r" % (pw, pw2), case)
+                # the same annotations again on a different frame grid (a result
+                # must not depend on what was evaluated before)
+                fs2 = r.choice([x for x in (0.5, 0.25, 1.0, 0.125) if x != fs])
+                seg.pairwise(*four, frame_size=fs2, beta=beta)
+                seg.nce(*four, frame_size=fs2, beta=beta)
+                seg.mutual_information(*four, frame_size=fs2)
                 a2 = seg.ari(riv, rlab, riv.copy(), ["q" + l for l in rlab],
                              frame_size=fs)
                 if not _close(a2, 1.0, TOL):
